@@ -64,6 +64,63 @@ class ClassVal:
         return f"<classobj {self.cls.short}>"
 
 
+class KeysView(list):
+    """the names of a folded dict at the time of the call (a snapshot, which is all a fold of straight-line code can tell apart) with the set
+    algebra of `dict.keys()`: `a.keys() - b.keys()`, `&`, `|`, `^`, subset comparisons"""
+
+    def _other(self, o):
+        return set(o) if isinstance(o, (list, tuple, set, frozenset, dict)) else None
+
+    def __sub__(self, o):
+        b = self._other(o)
+        return NotImplemented if b is None else set(self) - b
+
+    def __rsub__(self, o):
+        b = self._other(o)
+        return NotImplemented if b is None else b - set(self)
+
+    def __and__(self, o):
+        b = self._other(o)
+        return NotImplemented if b is None else set(self) & b
+
+    __rand__ = __and__
+
+    def __or__(self, o):
+        b = self._other(o)
+        return NotImplemented if b is None else set(self) | b
+
+    __ror__ = __or__
+
+    def __xor__(self, o):
+        b = self._other(o)
+        return NotImplemented if b is None else set(self) ^ b
+
+    __rxor__ = __xor__
+
+    def __le__(self, o):
+        return set(self) <= set(o)
+
+    def __lt__(self, o):
+        return set(self) < set(o)
+
+    def __ge__(self, o):
+        return set(self) >= set(o)
+
+    def __gt__(self, o):
+        return set(self) > set(o)
+
+    def __eq__(self, o):
+        return set(self) == set(o) if isinstance(o, (KeysView, set, frozenset)) else list.__eq__(self, o)
+
+    def __ne__(self, o):
+        return not self.__eq__(o)
+
+    __hash__ = None  # type: ignore[assignment]
+
+    def isdisjoint(self, o):
+        return set(self).isdisjoint(o)
+
+
 class FoldRaise(Exception):
     def __init__(self, exc: Any):
         self.exc = exc
@@ -215,7 +272,18 @@ class Folder:
             return ("bound-builtin", obj, attr)
         if isinstance(obj, str) and attr in ("startswith", "endswith", "encode", "upper", "lower", "format"):
             return ("bound-builtin", obj, attr)
-        if isinstance(obj, (set, frozenset)) and attr in ("add",):
+        if isinstance(obj, tuple) and obj == ("builtin", "int") and attr == "from_bytes":
+            return ("builtin", "int.from_bytes")
+        if isinstance(obj, tuple) and obj == ("builtin", "bytes") and attr == "fromhex":
+            return ("builtin", "bytes.fromhex")
+        if isinstance(obj, int) and not isinstance(obj, bool) and attr in ("bit_length", "to_bytes"):
+            return ("bound-builtin", obj, attr)
+        if isinstance(obj, bytes) and attr in ("hex", "decode", "rstrip", "lstrip", "strip", "startswith", "endswith", "split", "replace", "count", "find"):
+            return ("bound-builtin", obj, attr)
+        if isinstance(obj, (set, frozenset)) and attr in ("add", "difference", "intersection", "union", "symmetric_difference", "issubset", "issuperset", "isdisjoint", "copy",
+                                                          "discard", "update", "difference_update", "intersection_update"):
+            return ("bound-builtin", obj, attr)
+        if isinstance(obj, KeysView) and attr == "isdisjoint":
             return ("bound-builtin", obj, attr)
         return Unknown(f"attribute {attr} of {type(obj).__name__}")
 
@@ -232,7 +300,8 @@ class Folder:
             if e.id in ("True", "False", "None"):
                 return {"True": True, "False": False, "None": None}[e.id]
             if e.id in ("str", "int", "bool", "bytes", "list", "dict", "float", "set", "frozenset", "tuple", "len",
-                        "isinstance", "getattr", "all", "any", "super", "sorted", "hasattr", "callable", "next", "reversed", "min", "max", "sum", "enumerate", "zip"):
+                        "isinstance", "getattr", "all", "any", "super", "sorted", "hasattr", "callable", "next", "reversed", "min", "max", "sum", "enumerate", "zip",
+                        "divmod", "abs", "hex", "pow", "round", "bin", "oct", "chr", "ord"):
                 return ("builtin", e.id)
             return self.module_value(m, e.id)
         if isinstance(e, ast.Attribute):
@@ -268,6 +337,16 @@ class Folder:
                     return a ** b
                 if isinstance(e.op, ast.BitOr):
                     return a | b
+                if isinstance(e.op, ast.BitAnd):
+                    return a & b
+                if isinstance(e.op, ast.BitXor):
+                    return a ^ b
+                if isinstance(e.op, ast.LShift):
+                    return a << b
+                if isinstance(e.op, ast.RShift):
+                    return a >> b
+                if isinstance(e.op, ast.Div):
+                    return a / b
             except Exception:
                 return Unknown("binop failed")
             return Unknown("binop kind")
@@ -575,6 +654,17 @@ class Folder:
                 return list({"reversed": reversed, "enumerate": enumerate, "zip": zip}[name](*args))
             if name in ("min", "max", "sum") and all(isinstance(x, (int, float)) for a in args for x in (a if isinstance(a, (list, tuple)) else [a])):
                 return {"min": min, "max": max, "sum": sum}[name](*args)
+            if name in ("divmod", "abs", "hex", "pow", "round", "bin", "oct", "chr", "ord") and all(isinstance(a, (int, float, str, bytes)) and not isinstance(a, bool) or isinstance(a, bool) for a in args) and not kwargs:
+                import builtins as _b
+                try:
+                    return getattr(_b, name)(*args)
+                except (ZeroDivisionError, ValueError, TypeError, OverflowError) as e:
+                    raise FoldRaise(ExtVal(type(e).__name__, (), (), True))
+            if name in ("int.from_bytes", "bytes.fromhex") and not any(isinstance(a, (ExtVal, Inst)) for a in list(args) + list(kwargs.values())):
+                try:
+                    return int.from_bytes(*args, **kwargs) if name == "int.from_bytes" else bytes.fromhex(*args)
+                except (ValueError, TypeError, OverflowError) as e:
+                    raise FoldRaise(ExtVal(type(e).__name__, (), (), True))
             if name == "all":
                 return all(args[0])
             if name == "any":
@@ -627,7 +717,7 @@ class Folder:
                     obj.update(kwargs)
                     return None
                 if name == "keys":
-                    return list(obj.keys())
+                    return KeysView(obj.keys())
                 if name == "values":
                     return list(obj.values())
                 if name == "items":
@@ -646,8 +736,24 @@ class Folder:
             if isinstance(obj, set) and name == "add":
                 obj.add(args[0])
                 return None
+            if isinstance(obj, KeysView) and name == "isdisjoint":
+                return obj.isdisjoint(args[0])
+            if isinstance(obj, (set, frozenset)) and name in ("difference", "intersection", "union", "symmetric_difference", "issubset", "issuperset", "isdisjoint", "copy") \
+                    and not kwargs and not any(is_unknown(a) or isinstance(a, (ExtVal, Inst)) for a in args):
+                return getattr(obj, name)(*args)
+            if isinstance(obj, set) and name in ("discard", "update", "difference_update", "intersection_update") and not kwargs \
+                    and not any(is_unknown(a) or isinstance(a, (ExtVal, Inst)) for a in args):
+                getattr(obj, name)(*args)
+                return None
             if isinstance(obj, str):
                 return getattr(obj, name)(*args)
+            if isinstance(obj, (int, bytes)) and not isinstance(obj, bool) and not any(is_unknown(a) or isinstance(a, (ExtVal, Inst)) for a in list(args) + list(kwargs.values())):
+                try:
+                    return getattr(obj, name)(*args, **kwargs)
+                except (OverflowError, ValueError, TypeError, UnicodeDecodeError) as e:  # what the interpreter would raise at this point
+                    raise FoldRaise(ExtVal(type(e).__name__, (), (), True))
+        except FoldRaise:
+            raise
         except Exception:
             return Unknown(name + " failed")
         return Unknown(name)
